@@ -457,3 +457,8 @@ impl Prop for C06 {
         Ok(())
     }
 }
+
+/// shared with the union machine
+pub fn make_invoice_pub(h: u8, amt_msat: u64, now: Duration) -> Invoice {
+    make_invoice(h, amt_msat, now)
+}
